@@ -818,9 +818,12 @@ def c17_reach(chk, tier):
             cs.append((n, hex(pat), 0, 0, 1, k + 1)); cs.append((n, hex(pat), 0, 0, 1, 1000 + 7 * k))
     # inputs on which the Q/Q2 overlap defect of mc64wd_ (fixed, see known_findings.json) showed: dense root column with ties
     cs += [(4, "0x1afd", 0, 0, 1, 87796), (4, "0xe3bf", 0, 0, 1, 74567), (5, "0x09fcfe5", 0, 0, 1, 925), (5, "0x16ed977", 0, 0, 1, 55724), (6, "0xbd5ff7bff", 0, 0, 1, 29702), (6, "0xd1f58deff", 0, 0, 1, 50506), (7, "0x10e73aebeddf7", 0, 0, 1, 8701)]
+    # measured on a seeded heap-index slip in mc64fd_: about 1 in 1000 tie-heavy matrices of order 11-12 at density 0.5 reaches the sift-up-then-touch-again history, none below order 10
+    for n, cnt in ((11, 700), (12, 1300)) if q else ((10, 3000), (11, 4000), (12, 8000)):
+        for k, pat in enumerate(C.matchable_family(n, cnt, seed=555 + n, density=5)): cs.append((n, hex(pat), 0, 0, 1, 3000 + k)); cs.append((n, hex(pat), 0, 0, 1, 9000 + 3 * k))
     for n, cnt in ((4, 60), (5, 60)) if q else ((4, 400), (5, 400)):
         for k, pat in enumerate(C.matchable_family(n, cnt, seed=31337, density=7)): cs.append((n, hex(pat), 0, 0, 1, 2000 + k))
-    run_phase(chk, "ldperm(job 5) tie-heavy reach/d", H + "h_ldperm.c", list(dict.fromkeys(cs)), ["C17."], prec="d", budget_s=120 if q else 1500, validate_samples=0, qtimeout_ms=5000, path_timeout=60, env={"SLUSYM_LOG2": "1"},
+    run_phase(chk, "ldperm(job 5) tie-heavy reach/d", H + "h_ldperm.c", list(dict.fromkeys(cs)), ["C17."], prec="d", budget_s=200 if q else 2400, validate_samples=0, qtimeout_ms=5000, path_timeout=60, env={"SLUSYM_LOG2": "1"},
               bounds="n = 6..12, pseudo-random patterns containing a perfect matching, concrete entries +-2^k (k in -2..2: many exact ties), exact base-2 logarithms; optimality through the dual certificate (and by enumeration for n = 6)")
     cs = []
     for n, cnt, den in ((4, 30, 7), (5, 10, 5), (6, 8, 5)) if q else ((4, 200, 7), (5, 60, 5), (6, 60, 5), (7, 30, 4)):
